@@ -2,7 +2,7 @@
    range.  Only the property theorems, each closed by [exact]; proofs live in
    Midi/MidiProofs.v, the model in Midi/MidiModel.v, the Spec in Midi/MidiSpec.v. *)
 From Coq Require Import List ZArith QArith.
-From RtoscV Require Import Midi.MidiModel Midi.MidiSpec Midi.MidiProofs Midi.MidiFloat Midi.MidiProto.
+From RtoscV Require Import Midi.MidiModel Midi.MidiSpec Midi.MidiProofs Midi.MidiFloat Midi.MidiProto Midi.MidiNrt.
 Import ListNotations.
 Local Open Scope Z_scope.
 
@@ -78,3 +78,56 @@ Theorem C20_quiescent_learn_nonvacuous :
     run ports world0 evs = (tr, Some fin) /\ quiescent evs tr = true /\
     assigned_targets 5 tr = [(1, true)] /\ assigned_targets 6 tr = [(1, false)].
 Proof. exact quiescent_fresh_nonvacuous. Qed.
+
+(* controllers that are not assigned produce no parameter message: a
+   controller with no entry in the realtime side's snapshot yields none
+   (which controllers have entries: C20_learn_oldest_partial, C20_unmap_stops,
+   C20_bind_installs; no controller has two: C20_quiescent_learn_partial) *)
+Theorem C20_unassigned_silent : forall r id v r' m used,
+  ~ In id (mids (omap (rstorage r))) ->
+  rt_handleCC r id v = Some (r', m, used) -> m = None.
+Proof. exact unassigned_silent. Qed.
+
+(* assigned to the oldest queued address, other bindings unaffected.
+   _partial: proved for the first controller of an address (no inv_map entry
+   yet); for a second controller of an address that already has one (fine
+   after coarse, relearn of one kind) the slot comes from inv_map and the
+   statement needs the consistency of inv_map with the callback vector, which
+   is not proved here (the correspondence run and the Spec oracle cover it).
+   Full statement: the same without the hypothesis inv_find a (inv_map n) = None. *)
+Theorem C20_learn_oldest_partial : forall ports n id a c q p,
+  learnQ n = (a, c) :: q -> nthZ ports a = Some p ->
+  inv_find a (inv_map n) = None ->
+  ~ In id (mids (omap (nstorage n))) ->
+  exists s' loc,
+    nrt_useFreeID ports n id =
+      Some ({| nstorage := Some s';
+               inv_map := inv_set a (if c then (loc, id, -1, {| bmin := pmin p; bmax := pmax p |})
+                                     else (loc, -1, id, {| bmin := pmin p; bmax := pmax p |}))
+                            (inv_set a (loc, -1, -1, {| bmin := pmin p; bmax := pmax p |}) (inv_map n));
+               learnQ := q |}, [RBind s']) /\
+    find_map id (mapping s') = Some (id, c, loc) /\
+    nthZ (callbacks s') loc = Some (mk_cb p a) /\
+    (forall id', id' <> id -> find_map id' (mapping s') = find_map id' (omap (nstorage n))) /\
+    (forall s i y, nstorage n = Some s -> nthZ (callbacks s) i = Some y -> nthZ (callbacks s') i = Some y).
+Proof. exact learn_new_address. Qed.
+
+(* unmapping an address stops its controller from driving it, the others keep
+   their entries *)
+Theorem C20_unmap_stops : forall n a (c : bool) im s,
+  inv_find a (inv_map n) = Some im -> nstorage n = Some s ->
+  NoDup (mids (mapping s)) ->
+  let kill := if c then im_co im else im_fi im in
+  kill <> -1 ->
+  forall n' out, nrt_unmap n a c = Some (n', out) ->
+  exists s', out = [RBind s'] /\ nstorage n' = Some s' /\
+    find_map kill (mapping s') = None /\
+    (forall v, store_handleCC s' kill v = Some (s', None)) /\
+    (forall id', id' <> kill -> find_map id' (mapping s') = find_map id' (mapping s)) /\
+    callbacks s' = callbacks s /\ learnQ n' = learnQ n.
+Proof. exact unmap_stops. Qed.
+
+(* after a midi-bind the realtime side works from the snapshot it carried *)
+Theorem C20_bind_installs : forall r ns r', rt_deliver r (RBind ns) = Some r' ->
+  exists s', rstorage r' = Some s' /\ mapping s' = mapping ns /\ callbacks s' = callbacks ns.
+Proof. exact bind_installs. Qed.
